@@ -601,6 +601,11 @@ func (o *operation) handle() {
 	serverReqMeta := o.reqMeta
 	serverReqMeta.codec = o.server.codec.Name()
 	serverReqMeta.compression = o.server.reqCompression.Name()
+	if skipBody {
+		// Everything is in the request line: there is no body whose
+		// encoding could be announced.
+		serverReqMeta.compression = ""
+	}
 	serverReqMeta.acceptCompression = o.compressors.intersection(o.reqMeta.acceptCompression)
 	o.server.protocol.addProtocolRequestHeaders(serverReqMeta, o.request.Header)
 
